@@ -285,6 +285,31 @@ def run(eng, rep, tier):
                   "are not followed" % (meth, ast.unparse(bad[0]) if bad else "?"), None,
                   site=site_of(prog, f, (bad[0] if bad else f.node)))
     names.check(eng, rep, "C18")
+    # -------------------------------------------------------------- C18.2 the chart keeps the most general states
+    # StateProcessed.add refuses a new state exactly when a STORED state subsumes it (the stored one is at least as
+    # general).  The other direction throws away a state that is more general than what is stored: derivations that
+    # need the general one are lost.  Decided on the outermost FeatureStructure.subsumes calls reached from `add`:
+    # the receiver comes out of self.processed, the argument out of the new element.
+    fa_ = prog.functions.get("pyformlang.fcfg.state.StateProcessed.add")
+    if fa_ is None:
+        rep.error("R1", "C18.2", "pyformlang.fcfg.state.StateProcessed", "anchor", "StateProcessed.add vanished")
+    else:
+        sa_ = interp.run_entry(fa_, "pyformlang.fcfg.state.StateProcessed")
+        outer = [ev for ev, chain in sa_.walk() if ev.kind == "call" and ev.callee and
+                 ev.callee.endswith("FeatureStructure.subsumes") and
+                 not any(getattr(c, "callee", None) and c.callee.endswith("FeatureStructure.subsumes") for c in chain)]
+
+        def _from(av, root):
+            return av is not None and any(l[0] == root for l in av.alias)
+        good = [ev for ev in outer if _from(ev.recv, "self") and ev.args and _from(ev.args[0], "p:element")
+                and not _from(ev.recv, "p:element")]
+        wrong = [ev for ev in outer if _from(ev.recv, "p:element") and ev.args and _from(ev.args[0], "self")]
+        ob.decide("R1", "C18.2", fa_, "stored-state-subsumes-new-one", bool(good) and not wrong,
+                  "a new chart state is refused when a stored state subsumes it (stored.subsumes(new))",
+                  "the subsumption test of StateProcessed.add runs the wrong way round (new.subsumes(stored)): a new state "
+                  "that is more general than a stored one is discarded" if wrong else
+                  "StateProcessed.add does not compare the new state with the stored ones by subsumption", sa_,
+                  site=(wrong[0].site.to_json() if wrong else site_of(prog, fa_, fa_.node)))
     rep.stats.update(eng.stats())
     rep.floor = 12
 
